@@ -162,6 +162,10 @@ class Folder:
                     return l > r
                 if isinstance(op, ast.GtE):
                     return l >= r
+                if isinstance(op, ast.In) and isinstance(r, (tuple, list, set, frozenset)):
+                    return l in r
+                if isinstance(op, ast.NotIn) and isinstance(r, (tuple, list, set, frozenset)):
+                    return l not in r
             except TypeError:
                 return UNKNOWN
         if isinstance(e, ast.IfExp):
@@ -249,6 +253,10 @@ class Folder:
         else:
             return UNKNOWN
         for p in parts[1:]:
+            if isinstance(cur, dict) and p in cur:
+                # an object described by its attributes (case evaluation: {'safi': 128})
+                cur = cur[p]
+                continue
             if isinstance(cur, ClassRef):
                 cur = self.class_attr(cur.qualname, p)
             elif isinstance(cur, ModRef):
